@@ -231,6 +231,7 @@ inline KV genCase11(bool forTsan)
             s.reduction = rpick({1.0, 1.0, 0.5});
             s.R0        = s.Rmax * 1e-2;
         }
+        s.via_cli = rint(0, 1);
         s.put(c, "s_");
         return c;
     }
